@@ -6,7 +6,9 @@ Functions under contract (real source, re-read on every run):
   dictable.xor          the merge region: from the two _listby calls to the tail `res.extend(...)`, for mode 0 and mode 1
 Callee contracts used (modular): `sort` (C07: returns a permutation that is non-decreasing under cmp - here on (key, row index)
 pairs, so ties are ordered by row index), `cmp` (C07: total preorder with values in {-1,0,1}), `dictable.__getitem__` for a tuple of
-key columns / key functions (C01: the list of the rows' key tuples), `_listby` at its call sites in join / xor (proved here on its body).
+key columns / key functions (C01: the list of the rows' key tuples), `dictable.__getitem__` for a list of row indices at the end of xor (C01
+__getitem__.ints.* / constructor.rows.*: those rows, in that order - regenerated in this property's check, checks/depends.py), `_listby` at its call
+sites in join / xor (proved here on its body).
 Not proved here (bounded stand-in rac/C02.py): the prelude of join/xor (column spelling, as_tuple, set algebra on column names), the
 cross-product expansion of matched groups into rows and the `mode` handling of same-named columns, the empty-table phantom group.
 """
@@ -618,7 +620,7 @@ class Tail:
 
     def subscript(self, ex, st, e, recv, idx):
         if recv.kind == 'obj' and recv.f.get('cls') == 'dictable' and idx.kind == 'flat':
-            ex.use('assumed contract:dictable[list of row indices] is the table of those rows in that order (C01)')
+            ex.use('callee contract:dictable[list of row indices] is the table of those rows in that order (proved in C01 __getitem__.ints.* with the constructor from rows + headers, constructor.rows.*)')
             return SV('selected', None, groups=idx.f['groups'], table=recv.name)
         return NotImplemented
 
